@@ -160,6 +160,19 @@ class Lib(object):
         # two prefixes of one key are comparable
         A("pre.linear", z3.ForAll([a, b, c], z3.Implies(z3.And(pre(a, c), pre(b, c)), z3.Or(pre(a, b), pre(b, a))),
                                   patterns=[z3.MultiPattern(pre(a, c), pre(b, c))]))
+        # positional view of a key: kprefix(k, i) = its prefix of length i, ktok(k, i) = its i-th token
+        kprefix = z3.Function("kprefix", K, I, K)
+        ktok = z3.Function("ktok", K, I, Tk)
+        o["kprefix"], o["ktok"] = kprefix, ktok
+        i = z3.Int("i!kp")
+        A("kprefix.0", z3.ForAll([a], kprefix(a, 0) == eps, patterns=[kprefix(a, 0)]))
+        A("kprefix.all", z3.ForAll([a], kprefix(a, klen(a)) == a, patterns=[kprefix(a, klen(a))]))
+        A("kprefix.step", z3.ForAll([a, i], z3.Implies(z3.And(0 <= i, i < klen(a)),
+                                                       z3.And(kprefix(a, i + 1) == snoc(kprefix(a, i), ktok(a, i)), pre(kprefix(a, i + 1), a),
+                                                              klen(kprefix(a, i)) == i, pre(kprefix(a, i), a))),
+                                    patterns=[ktok(a, i)]))
+        A("kprefix.of-prefix", z3.ForAll([a, b], z3.Implies(pre(a, b), a == kprefix(b, klen(a))), patterns=[pre(a, b)]))
+        A("ktok.snoc", z3.ForAll([a, t], ktok(snoc(a, t), klen(a)) == t, patterns=[snoc(a, t)]))
         return o
 
     def seqkey(self):
@@ -189,6 +202,9 @@ class Lib(object):
         A("takek.prefix-of-take", z3.ForAll([s, k, i], z3.Implies(z3.And(0 <= i, i <= ln(s), ko["pre"](k, takek(s, i))), k == takek(s, ko["klen"](k))),
                                             patterns=[ko["pre"](k, takek(s, i))]))
         A("key_of.klen", z3.ForAll([s], ko["klen"](key_of(s)) == ln(s), patterns=[key_of(s)]))
+        x = z3.Const("x!k", cx.Tok)
+        A("key_of.snoc", z3.ForAll([s, x], key_of(so["snoc"](s, x)) == ko["snoc"](key_of(s), x), patterns=[key_of(so["snoc"](s, x))]))
+        A("key_of.empty", key_of(so["empty"]) == ko["eps"])
         r = {"takek": takek, "key_of": key_of}
         cx._cache[("seqkey",)] = r
         return r
